@@ -392,6 +392,9 @@ func DecodeDecoderConfigDescriptor(tag byte, sr bits.SliceReader, maxNrBytes int
 	dd.BufferSizeDB = streamTypeAndBufferSizeDB & 0xffffff
 	dd.MaxBitrate = sr.ReadUint32()
 	dd.AvgBitrate = sr.ReadUint32()
+	if err := sr.AccError(); err != nil {
+		return nil, fmt.Errorf("DecoderConfigDescriptor: %w", err)
+	}
 
 	currPos := sr.GetPos()
 	nrBytesLeft := int(size) - (currPos - dataStart)
